@@ -360,6 +360,23 @@ def inline_unknown(facts, baseline=None):
                 tgt = t['f'].get('res', t['f'])
                 if tgt.get('dp') in inlined and dp not in inlined:
                     still_called.add(tgt['dp'])
+    # ... nor is a helper that is still handed on as a function item (`find_map(Self::helper)`)
+    def _fn_items(x, out):
+        if isinstance(x, dict):
+            c = x.get('const')
+            if isinstance(c, dict) and isinstance(c.get('fn'), dict):
+                out.add((c['fn'].get('res') or c['fn']).get('dp') or c['fn'].get('dp'))
+            for v in x.values():
+                _fn_items(v, out)
+        elif isinstance(x, list):
+            for v in x:
+                _fn_items(v, out)
+    for dp, f in fns.items():
+        if dp in inlined:
+            continue
+        refs = set()
+        _fn_items(f['mir'], refs)
+        still_called |= (refs & inlined)
     drop = {dp for dp in inlined if dp not in still_called and not fns[dp].get('exported')}
     if drop:
         facts['fns'] = [f for f in facts['fns'] if f['dp'] not in drop]   # closures of a dropped helper stay: the spliced body refers to them
